@@ -118,12 +118,13 @@ def run(ctx):
         mp.close()
     # ---- statistical backstop on hand-picked contrasts
     if ctx.replay is None and ctx.variant == "plain":
-        ncase = ctx.n(2, 6)
+        ncase = ctx.n(4, 8)
         for c in range(ncase):
             rng = ctx.rng(5000 + c)
-            kind = ["cap", "jitter", "means"][c % 3]
-            pb = session.make_problem(rng, N=1, profile="flat" if kind != "jitter" else "moderate",
-                                      n_offsets=0, poly_trend=1, kkind="default-custom" if kind == "cap" else "normal")
+            kind = ["cap", "correlated", "jitter", "means"][(c + ctx.shard) % 4]
+            pb = session.make_problem(rng, N=1, profile="flat" if kind not in ("jitter", "correlated") else "moderate",
+                                      n_offsets=0, poly_trend=2 if kind == "correlated" else 1,
+                                      kkind="default-custom" if kind == "cap" else "normal")
             if kind == "cap":
                 pb.ps["K"]["max_K"], pb.ps["K"]["max_K_unit"] = 2.0, "km/s"
                 pb.ps["K"]["sigma_K0"] = 300.0 * oracle.np.float64(1.0) * (1.0 if pb.ps["K"]["unit"] == "km/s" else
@@ -136,19 +137,28 @@ def run(ctx):
             pb.lin = session.gen.linear_problem(pb.dspec, pb.ps)
             nd = 20000
             j = TheJoker(pb.prior, rng=np.random.default_rng([ctx.seed, ctx.shard, c]))
-            out = j.rejection_sample(pb.data, pb.lib, n_linear_samples=nd, in_memory=True)
+            in_mem = bool((c + ctx.shard) % 2 == 0) if kind == "correlated" else True
+            out = j.rejection_sample(pb.data, pb.lib, n_linear_samples=nd, in_memory=in_mem)
             z = oracle.z_column(pb.lin, pb.tagP[0], pb.rows["e"][0], pb.rows["omega"][0], pb.rows["M0"][0], "c")
             ref = oracle.marginal(pb.lin, z, pb.tagP[0], pb.rows["e"][0], pb.s_seen[0], want_post=True)
-            X = np.stack([out["K"].to_value(session.gen.U(pb.du)), out["v0"].to_value(session.gen.U(pb.du))], axis=1)
-            sd = np.sqrt(np.diag(ref["A"]))
+            import astropy.units as u_
+            cols = [out["K"].to_value(session.gen.U(pb.du))] + [out["v%d" % k_].to_value(session.gen.U(pb.du) / u_.day ** k_)
+                                                                for k_ in range(pb.ps["poly_trend"])]
+            X = np.stack(cols, axis=1)
+            A_ = np.asarray(ref["A"], dtype=float)
+            sd = np.sqrt(np.diag(A_))
             zmean = (X.mean(axis=0) - ref["a"]) / (sd / np.sqrt(nd))
-            zvar = (X.var(axis=0, ddof=1) / sd ** 2 - 1) / np.sqrt(2.0 / (nd - 1))
+            # every entry of the sample covariance against A (standard error of a Gaussian covariance estimate)
+            S = np.cov(X, rowvar=False, ddof=1)
+            se = np.sqrt((np.outer(np.diag(A_), np.diag(A_)) + A_ ** 2) / (nd - 1))
+            zcov = (S - A_) / se
             ctx.evaluations += 1
-            ctx.distinct.add("moments-" + kind)
-            ctx.maxi("moments_abs_z", float(max(np.max(np.abs(zmean)), np.max(np.abs(zvar)))))
-            if max(np.max(np.abs(zmean)), np.max(np.abs(zvar))) > 6.1:
-                ctx.violation("draw-moments", "sample moments of %d draws deviate from N(a, A): z(mean)=%s z(var)=%s [%s contrast]"
-                              % (nd, np.round(zmean, 2), np.round(zvar, 2), kind), dict(kind=kind, a=ref["a"], A=ref["A"]))
+            ctx.distinct.add("moments-" + kind + ("-mem" if in_mem else "-cache"))
+            ctx.maxi("moments_abs_z", float(max(np.max(np.abs(zmean)), np.max(np.abs(zcov)))))
+            if max(np.max(np.abs(zmean)), np.max(np.abs(zcov))) > 6.1:
+                ctx.violation("draw-moments", "sample moments of %d draws deviate from N(a, A): z(mean)=%s z(cov)=%s [%s contrast, %s]"
+                              % (nd, np.round(zmean, 2), np.round(zcov, 2).tolist(), kind, "in memory" if in_mem else "cache"),
+                              dict(kind=kind, a=ref["a"], A=ref["A"], correlation=(A_ / np.outer(sd, sd)).tolist()))
 
     # a monitor that could not recognise the recorded draw pattern has not judged that session: if that happens often the
     # verdict is "inconclusive", never "held"
